@@ -9,6 +9,7 @@ from vf.props import c01
 
 class C07(c01.C01):
     id = 'C07'
+    anchors = ('ForexTransations._SendMoney', 'ForexTransations._ReceiveMoney', 'Model._GenerateRegisteredCashFlows', 'Market._GenerateMultiSupply', 'InternationalGold.SetGoldPurchases', 'ExchangeRates.GetCrossRate')
     title = 'Cross-currency flows conserve value at the prevailing exchange rates'
     rule = ('cases: (a) 2-3 zone model specifications with an external sector, time-varying non-unit exchange rates '
             '(0.4..3.0), cross-zone gifts, cross-zone imports and gold-standard governments, built and solved by the real '
